@@ -1378,9 +1378,48 @@ fn lattice_scenarios(out: &mut Out, secp: &Secp256k1<All>, rng: &mut R) -> usize
     flows
 }
 
+/// Parties may join a PSET by INSERTING their inputs anywhere (`insert_input`), not only by appending: every output
+/// must keep pointing at the SAME input as its blinder ("updates … the blinder index that might have shifted"), and
+/// the declared input count must follow — otherwise an output silently becomes another party's to blind.
+fn insertion_keeps_blinders(out: &mut Out, rng: &mut R) {
+    for n in 1usize..=4 {
+        for pos in 0..=n {
+            let mut p = Pset::new_v2();
+            for _ in 0..n {
+                p.add_input(pset::Input::from_prevout(elements::OutPoint::new(elements::Txid::from_byte_array(gen::arr32(rng)), rng.gen_range(0..4))));
+            }
+            let asset = gen::asset_id(rng);
+            // one output per input index, plus one unmarked output
+            for i in 0..n {
+                let mut spk = vec![0x00, 0x14]; spk.extend(gen::bytes(rng, 20));
+                let mut o = pset::Output::new_explicit(elements::Script::from(spk), 1000 + i as u64, asset, Some(bitcoin::PublicKey::new(bitcoin::secp256k1::PublicKey::from_slice(&gen::pubkey(rng).serialize()).unwrap())));
+                o.blinder_index = Some(i as u32);
+                p.add_output(o);
+            }
+            p.add_output(pset::Output::new_explicit(elements::Script::new(), 7, asset, None));
+            let owner: Vec<Option<elements::Txid>> = p.outputs().iter().map(|o| o.blinder_index.map(|i| p.inputs()[i as usize].previous_txid)).collect();
+            let r = std::panic::catch_unwind(std::panic::AssertUnwindSafe(|| {
+                let mut q = p.clone();
+                q.insert_input(pset::Input::from_prevout(elements::OutPoint::new(elements::Txid::from_byte_array(gen::arr32(rng)), 0)), pos);
+                q
+            }));
+            out.count("insert_input.cases");
+            match r {
+                Err(_) => out.s("insert_input_in_range_never_panics", false, || format!("n={} pos={}", n, pos)),
+                Ok(q) => {
+                    let now: Vec<Option<elements::Txid>> = q.outputs().iter().map(|o| o.blinder_index.and_then(|i| q.inputs().get(i as usize).map(|x| x.previous_txid))).collect();
+                    out.s("insert_input_keeps_every_outputs_blinder", now == owner, || format!("{} inputs, insertion at {}: blinder indices before {:?} after {:?}", n, pos, p.outputs().iter().map(|o| o.blinder_index).collect::<Vec<_>>(), q.outputs().iter().map(|o| o.blinder_index).collect::<Vec<_>>()));
+                    out.s("insert_input_updates_the_count", q.n_inputs() == q.inputs().len() && q.inputs().len() == n + 1, || format!("n={} pos={} n_inputs={}", n, pos, q.n_inputs()));
+                }
+            }
+        }
+    }
+}
+
 pub fn run(rng: &mut R, out: &mut Out) {
     let secp = Secp256k1::new();
     let thorough = out.tier_thorough;
+    insertion_keeps_blinders(out, rng);
     // regression corpus first: the two-party coinjoin shape, single party single output, twin parties
     twin_parties(out, &secp, rng);
     zero_amount_last(out, &secp, rng);
